@@ -21,11 +21,12 @@ type Property struct {
 // Mutant is a positive control: a small compile-clean edit of an anchored file that
 // must make the named rule report a violation.
 type Mutant struct {
-	Name string
-	File string // repo-relative
-	Old  string // text replaced (must occur exactly once)
-	New  string
-	Rule string // rule expected to fire
+	Name       string
+	File       string // repo-relative
+	Old        string // text replaced (must occur exactly once unless Occurrence is set)
+	Occurrence int    // 1-based occurrence of Old to replace when it occurs several times (0: must be unique)
+	New        string
+	Rule       string // rule expected to fire
 }
 
 var registry = map[string]*Property{}
